@@ -97,8 +97,16 @@ def cleared_from_length(ctx, f, arr_name, len_name, fill_value_pred, what, key_p
                 be = strip(b)
                 endk = None
                 # previous length: a read of *len_param that dominates every store
+                if be[0] == "local" and be[1] in sy.stale:
+                    # a snapshot `let old = *len` taken before the length is overwritten: the previous length iff the
+                    # snapshot is taken before every store
+                    org = strip(sy.origin(be))
+                    r0, n0 = fpath(org)
+                    dblk = f.defs[be[1]][0][0]
+                    if r0[0] == "param" and r0[1] == li and n0 == () and all(f.dominates(dblk, x[0]) and (dblk != x[0] or f.defs[be[1]][0][1] < x[1]) for x in stores):
+                        endk = "prev"
                 r, names = fpath(b)
-                if r[0] == "param" and r[1] == li and names == ():
+                if endk is None and r[0] == "param" and r[1] == li and names == ():
                     # `*len` read: it denotes the previous length iff every read of *len precedes every store
                     reads = [bi for bi, bj, st in f.stmts() if st["s"] == "assign" and st["rv"]["r"] == "use" and st["rv"]["a"]["k"] in ("copy", "move")
                              and st["rv"]["a"]["pl"]["l"] == li and st["rv"]["a"]["pl"]["p"] == ["*"]]
